@@ -1,6 +1,9 @@
 package tls
 
-import "errors"
+import (
+	"crypto/x509"
+	"errors"
+)
 
 // This file is ADDED to package tls by the -overlay that /verif/bin/check builds with
 // (it is not part of /repo). It exposes private state that oracles need, read-only.
@@ -145,4 +148,51 @@ func VerifSendKeyUpdatesCoalesced(c *Conn, n int) error {
 	}
 	c.out.setTrafficSecret(cipherSuite, QUICEncryptionLevelInitial, secret)
 	return nil
+}
+
+// VerifSessionStateWithCerts parses an encoded SessionState, replaces its peer certificates and verified
+// chains (DER) and returns the new encoding: shapes a handshake against the harness fixtures cannot
+// produce (cross-signed intermediates, several chains).
+func VerifSessionStateWithCerts(base []byte, peer [][]byte, chains [][][]byte) ([]byte, error) {
+	ss, err := ParseSessionState(base)
+	if err != nil {
+		return nil, err
+	}
+	parse := func(der []byte) (*x509.Certificate, error) { return x509.ParseCertificate(der) }
+	ss.peerCertificates = nil
+	for _, d := range peer {
+		c, err := parse(d)
+		if err != nil {
+			return nil, err
+		}
+		ss.peerCertificates = append(ss.peerCertificates, c)
+	}
+	ss.verifiedChains = nil
+	for _, ch := range chains {
+		var l []*x509.Certificate
+		for _, d := range ch {
+			c, err := parse(d)
+			if err != nil {
+				return nil, err
+			}
+			l = append(l, c)
+		}
+		ss.verifiedChains = append(ss.verifiedChains, l)
+	}
+	return ss.Bytes()
+}
+
+// VerifSessionStateCerts returns the peer certificates and verified chains of a state in DER.
+func VerifSessionStateCerts(ss *SessionState) (peer [][]byte, chains [][][]byte) {
+	for _, c := range ss.peerCertificates {
+		peer = append(peer, c.Raw)
+	}
+	for _, ch := range ss.verifiedChains {
+		var l [][]byte
+		for _, c := range ch {
+			l = append(l, c.Raw)
+		}
+		chains = append(chains, l)
+	}
+	return
 }
